@@ -21,6 +21,35 @@ CHECKS = {
         note="Trusts spec/ref3.py (self-checked every run against 5,215 pinned official vectors), CPython fractions/decimal. "
              "Independence from spelling is sampled here (exhaustive part uses one spelling) and is C05/C06's subject.",
         ref="3 C01"),
+    "C02": dict(
+        technique="runtime reference-model monitor (exact-Fraction v4 model, first-principles EQ levels) over a stratified / "
+                  "exhaustive sweep",
+        text="Every constructed v4 object's base_score/scores() is compared with an independent exact evaluation of the "
+             "macrovector/interpolation algorithm (EQ predicates typed from the specification, highest-severity vectors and "
+             "depths derived by enumerating each EQ level, pinned 270-entry lookup table). Quick exercises every one of the "
+             "270 macrovectors on every run (all highest-severity vectors, lowest member, random members) plus random "
+             "spellings; thorough constructs all 15,116,544 effective assignments. Evidence reports macrovectors exercised, "
+             "exact ties seen, and per deviant model the number of discriminating cases.",
+        note="Trusts the pinned lookup table (sha256 recorded, monotone, 1,694 official vectors reproduce) and spec/ref4.py. "
+             "A run that exercised fewer than 270 macrovectors is inconclusive.",
+        ref="3 C02"),
+    "C03": dict(
+        technique="runtime reference-model monitor (exact-Fraction v2 model) over an exhaustive quotient sweep",
+        text="Every constructed v2 object's scores() (numbers and None-ness, both directions) is compared with an exact "
+             "evaluation of the v2 guide equations; quick covers all 729 base x all 49 temporal cases plus sampled "
+             "environmental cases and definedness probes; thorough all 19,325,061 (729 x 49 x 541) cases. Negative exact "
+             "ties of intermediate values, which the guide leaves undefined, are evaluated under both readings and counted.",
+        note="Trusts spec/ref2.py (self-checked each run against 758 pinned official vectors incl. all 729 base vectors).",
+        ref="3 C03"),
+    "C14": dict(
+        technique="relational runtime monitor over severity lines; thorough = offline numpy checker over recorded score tables",
+        text="Scores observed while one metric runs through its severity order with all else fixed must be non-increasing. "
+             "Quick: ~200k lines incl. lines through every metric from members of every v4 macrovector; thorough records the "
+             "complete score tables from the real constructor (v4 15.1M points, v3 13.9M, v2 35k) and checks every one-step "
+             "pair along every axis. Independent of the reference models and of the pinned lookup table.",
+        note="Severity orders typed from the specifications; v3.0 environmental exempt for C/I/A, MC/MI/MA, CR/IR/AR as the "
+             "property states (the check counts and reports the exempt non-monotone pairs).",
+        ref="3 C14"),
 }
 
 NOT_BUILT_REASON = "check not built yet (framework under construction; see DESIGN.md section 3 for the planned monitor)"
